@@ -84,6 +84,8 @@ def run_case(case, ctx, res):
         dt1, dt2 = gen.draw_dtype(rng), gen.draw_dtype(rng)
         rel = None
     f1, u1, f2, u2, rel = gen.draw_unit_pair(rng, rel)
+    if not gen.float32_safe(osy, (dt1, dt2), (u1, u2)):
+        dt1 = dt2 = "float64"
     shape1 = gen.draw_shape(rng)
     shape2 = gen.broadcast_partner(rng, shape1)
     positive = op == "pow"
